@@ -20,7 +20,7 @@ section
 variable {Sub SSub : Type}
 
 def absL (f : Sub → SSub) (m : M Sub) : S SSub :=
-  { init := m.init, states := m.states.map (StateDef.map f), cb := m.cb, rt := absRt m.rt }
+  { mid := m.mid, init := m.init, states := m.states.map (StateDef.map f), cb := m.cb, rt := absRt m.rt }
 
 def absR (f : Sub → SSub) (r : M Sub × Bool × Trace) : S SSub × Bool × Trace := (absL f r.1, r.2.1, r.2.2)
 def absP (f : Sub → SSub) (r : M Sub × Trace) : S SSub × Trace := (absL f r.1, r.2)
@@ -67,51 +67,93 @@ theorem setSub_absL (f : Sub → SSub) (m : M Sub) (c : StateId) (x : Sub) :
 theorem view_running (rt : Rt) (hr : rt.running = true) : rt.view = mkView rt.curr rt.last rt.next := by
   simp [Rt.view, mkView, hr]
 
-theorem runScript_eq_body (rt : Rt) (sc : Script) (hr : rt.running = true) (hc : rt.cbLevel ≠ 0) :
-    runScript rt sc = Spec.body (mkView rt.curr rt.last rt.next) sc := by
-  induction sc with
-  | nil => rfl
-  | cons op rest ih =>
-    cases op with
-    | obs => simp only [runScript, Spec.body, ih, view_running rt hr]
-    | call c => simp only [runScript, Spec.body, ih, scriptCall_rejected rt c hr hc, view_running rt hr]
+/-- what the ancestors look like from outside -/
+def absCtx (ctx : Ctx) : Spec.SCtx := ctx.map fun p => (p.1, p.2.view)
 
-theorem probe_eq_phase (mk : Bool → Kind) (p : Option Script) (rt : Rt) (hr : rt.running = true) (hc : rt.cbLevel ≠ 0) :
-    probe mk p rt = Spec.phase mk p (mkView rt.curr rt.last rt.next) := by
+theorem lookup_absCtx (ctx : Ctx) (k : Nat) : Spec.lookupCtx (absCtx ctx) k = (lookupCtx ctx k).map Rt.view := by
+  unfold Spec.lookupCtx lookupCtx absCtx
+  rw [List.find?_map]
+  cases h : ctx.find? ((fun p => p.1 == k) ∘ fun p => (p.1, p.2.view)) with
+  | none =>
+    have : ctx.find? (fun p => p.1 == k) = none := h
+    simp [this]
+  | some p =>
+    have : ctx.find? (fun p => p.1 == k) = some p := h
+    simp [this]
+
+theorem targetView_abs (self : Nat) (rt : Rt) (ctx : Ctx) (t : Option Nat) :
+    Spec.targetView self rt.view (absCtx ctx) t = (targetRt self rt ctx t).map Rt.view := by
+  cases t with
+  | none => rfl
+  | some k =>
+    simp only [Spec.targetView, targetRt]
+    split
+    · rfl
+    · exact lookup_absCtx ctx k
+
+theorem scriptOp_eq_bodyOp (self : Nat) (rt : Rt) (ctx : Ctx) (op : SOp) (h : Busy rt) (hctx : AllBusy ctx) :
+    scriptOp self rt ctx op = Spec.bodyOp self (mkView rt.curr rt.last rt.next) (absCtx ctx) op := by
+  rw [← view_running rt h.1]
+  cases op with
+  | obs t =>
+    simp only [scriptOp, Spec.bodyOp, targetView_abs]
+    cases targetRt self rt ctx t <;> rfl
+  | call t c =>
+    simp only [scriptOp, Spec.bodyOp, targetView_abs]
+    cases ht : targetRt self rt ctx t with
+    | none => rfl
+    | some r =>
+      simp only [Option.map_some]
+      exact scriptCall_rejected r t c (targetRt_busy h hctx ht)
+
+theorem runScript_eq_body (self : Nat) (rt : Rt) (ctx : Ctx) (sc : Script) (h : Busy rt) (hctx : AllBusy ctx) :
+    runScript self rt ctx sc = Spec.body self (mkView rt.curr rt.last rt.next) (absCtx ctx) sc := by
+  unfold runScript Spec.body
+  apply List.map_congr_left
+  intro op _
+  rw [scriptOp_eq_bodyOp self rt ctx op h hctx]
+
+theorem probe_eq_phase (mk : Bool → Kind) (p : Option Script) (self : Nat) (rt : Rt) (ctx : Ctx) (h : Busy rt) (hctx : AllBusy ctx) :
+    probe mk p self rt ctx = Spec.phase mk p self (mkView rt.curr rt.last rt.next) (absCtx ctx) := by
   unfold probe Spec.phase
   cases p with
   | none => rfl
-  | some sc => simp only [runScript_eq_body rt sc hr hc]
+  | some sc => simp only [runScript_eq_body self rt ctx sc h hctx]
 
-theorem probe_eq_phase' (mk : Bool → Kind) (p : Option Script) (r : Bool) (c l n : Option StateId) (lv : Nat)
-    (hr : r = true) : probe mk p ⟨r, c, l, n, lv + 1⟩ = Spec.phase mk p (mkView c l n) :=
-  probe_eq_phase mk p ⟨r, c, l, n, lv + 1⟩ hr (by simp)
+theorem probe_eq_phase' (mk : Bool → Kind) (p : Option Script) (self : Nat) (r : Bool) (c l n : Option StateId) (lv : Nat)
+    (ctx : Ctx) (hr : r = true) (hctx : AllBusy ctx) :
+    probe mk p self ⟨r, c, l, n, lv + 1⟩ ctx = Spec.phase mk p self (mkView c l n) (absCtx ctx) :=
+  probe_eq_phase mk p self ⟨r, c, l, n, lv + 1⟩ ctx ⟨hr, by simp⟩ hctx
+
+theorem absCtx_cons (k : Nat) (r : Bool) (c l n : Option StateId) (lv : Nat) (ctx : Ctx) (hr : r = true) :
+    absCtx ((k, (⟨r, c, l, n, lv⟩ : Rt)) :: ctx) = (k, mkView c l n) :: absCtx ctx := by
+  simp [absCtx, view_running ⟨r, c, l, n, lv⟩ hr]
 
 /-- what the parent may assume: the sub-machine API of the model refines that of the spec -/
-structure SubRef (I : Sub → Prop) (f : Sub → SSub) (mo : SubOps Sub) (so : SubOps SSub) : Prop where
-  start : ∀ x, I x → (f (mo.start x).1, (mo.start x).2) = so.start (f x)
-  stop : ∀ x, I x → (f (mo.stop x).1, (mo.stop x).2) = so.stop (f x)
-  run : ∀ x e, I x → (f (mo.run x e).1, (mo.run x e).2) = so.run (f x) e
+structure SubRef (I : Sub → Prop) (f : Sub → SSub) (mo : SubOps Ctx Sub) (so : SubOps Spec.SCtx SSub) : Prop where
+  start : ∀ ctx x, AllBusy ctx → I x → (f (mo.start ctx x).1, (mo.start ctx x).2) = so.start (absCtx ctx) (f x)
+  stop : ∀ ctx x, AllBusy ctx → I x → (f (mo.stop ctx x).1, (mo.stop ctx x).2) = so.stop (absCtx ctx) (f x)
+  run : ∀ ctx x e, AllBusy ctx → I x → (f (mo.run ctx x e).1, (mo.run ctx x e).2) = so.run (absCtx ctx) (f x) e
   term : ∀ x, I x → mo.isTerminated x = so.isTerminated (f x)
   running : ∀ x, I x → mo.isRunning x = so.isRunning (f x)
 
-variable {I : Sub → Prop} {f : Sub → SSub} {mo : SubOps Sub} {so : SubOps SSub}
+variable {I : Sub → Prop} {f : Sub → SSub} {mo : SubOps Ctx Sub} {so : SubOps Spec.SCtx SSub}
 
-theorem SubRef.start1 (h : SubRef I f mo so) (x : Sub) (hx : I x) : (so.start (f x)).1 = f (mo.start x).1 := by
-  rw [← h.start x hx]
-theorem SubRef.start2 (h : SubRef I f mo so) (x : Sub) (hx : I x) : (so.start (f x)).2 = (mo.start x).2 := by
-  rw [← h.start x hx]
-theorem SubRef.stop1 (h : SubRef I f mo so) (x : Sub) (hx : I x) : (so.stop (f x)).1 = f (mo.stop x).1 := by
-  rw [← h.stop x hx]
-theorem SubRef.stop2 (h : SubRef I f mo so) (x : Sub) (hx : I x) : (so.stop (f x)).2 = (mo.stop x).2 := by
-  rw [← h.stop x hx]
-theorem SubRef.run1 (h : SubRef I f mo so) (x : Sub) (e : EventId) (hx : I x) : (so.run (f x) e).1 = f (mo.run x e).1 := by
-  rw [← h.run x e hx]
-theorem SubRef.run2 (h : SubRef I f mo so) (x : Sub) (e : EventId) (hx : I x) : (so.run (f x) e).2 = (mo.run x e).2 := by
-  rw [← h.run x e hx]
+theorem SubRef.start1 (h : SubRef I f mo so) (ctx : Ctx) (x : Sub) (hc : AllBusy ctx) (hx : I x) :
+    (so.start (absCtx ctx) (f x)).1 = f (mo.start ctx x).1 := by rw [← h.start ctx x hc hx]
+theorem SubRef.start2 (h : SubRef I f mo so) (ctx : Ctx) (x : Sub) (hc : AllBusy ctx) (hx : I x) :
+    (so.start (absCtx ctx) (f x)).2 = (mo.start ctx x).2 := by rw [← h.start ctx x hc hx]
+theorem SubRef.stop1 (h : SubRef I f mo so) (ctx : Ctx) (x : Sub) (hc : AllBusy ctx) (hx : I x) :
+    (so.stop (absCtx ctx) (f x)).1 = f (mo.stop ctx x).1 := by rw [← h.stop ctx x hc hx]
+theorem SubRef.stop2 (h : SubRef I f mo so) (ctx : Ctx) (x : Sub) (hc : AllBusy ctx) (hx : I x) :
+    (so.stop (absCtx ctx) (f x)).2 = (mo.stop ctx x).2 := by rw [← h.stop ctx x hc hx]
+theorem SubRef.run1 (h : SubRef I f mo so) (ctx : Ctx) (x : Sub) (e : Event) (hc : AllBusy ctx) (hx : I x) :
+    (so.run (absCtx ctx) (f x) e).1 = f (mo.run ctx x e).1 := by rw [← h.run ctx x e hc hx]
+theorem SubRef.run2 (h : SubRef I f mo so) (ctx : Ctx) (x : Sub) (e : Event) (hc : AllBusy ctx) (hx : I x) :
+    (so.run (absCtx ctx) (f x) e).2 = (mo.run ctx x e).2 := by rw [← h.run ctx x e hc hx]
 
-theorem start_ref (hs : SubInv I mo) (hr : SubRef I f mo so) (m : M Sub) (hm : InvL I mo m) :
-    absR f (start mo m) = Spec.start so (absL f m) := by
+theorem start_ref (hs : SubInv I mo) (hr : SubRef I f mo so) (ctx : Ctx) (hctx : AllBusy ctx) (m : M Sub) (hm : InvL I mo m) :
+    absR f (start mo ctx m) = Spec.start so (absCtx ctx) (absL f m) := by
   unfold start Spec.start absR
   rw [startReject_ok hm.1]
   by_cases hrun : m.rt.running = true
@@ -129,9 +171,17 @@ theorem start_ref (hs : SubInv I mo) (hr : SubRef I f mo so) (m : M Sub) (hm : I
     | none => simp [absL, absRt]
     | some st =>
       simp only [Option.map_some]
-      have hp : probe (.enter st.id 0) st.enter ⟨true, some st.id, m.rt.last, m.rt.next, m.rt.cbLevel + 1⟩
-          = Spec.phase (.enter st.id 0) st.enter (mkView (some st.id) m.rt.last none) := by
-        rw [probe_eq_phase _ _ _ rfl (by simp)]; simp [hm.1.2.1]
+      have hmid : (absL f m).mid = m.mid := rfl
+      have hlast : (absL f m).rt.last = m.rt.last := rfl
+      simp only [hmid, hlast]
+      have hp : probe (.enter st.id ev0) st.enter m.mid ⟨true, some st.id, m.rt.last, m.rt.next, m.rt.cbLevel + 1⟩ ctx
+          = Spec.phase (.enter st.id ev0) st.enter m.mid (mkView (some st.id) m.rt.last none) (absCtx ctx) := by
+        rw [probe_eq_phase' _ _ _ _ _ _ _ _ _ rfl hctx]; simp [hm.1.2.1]
+      have hdown : AllBusy ((m.mid, (⟨true, some st.id, m.rt.last, m.rt.next, m.rt.cbLevel + 1⟩ : Rt)) :: ctx) :=
+        allBusy_cons m.mid ⟨rfl, by simp⟩ hctx
+      have hcx : absCtx ((m.mid, (⟨true, some st.id, m.rt.last, m.rt.next, m.rt.cbLevel + 1⟩ : Rt)) :: ctx)
+          = (m.mid, mkView (some st.id) m.rt.last none) :: absCtx ctx := by
+        rw [absCtx_cons _ _ _ _ _ _ _ rfl]; simp [hm.1.2.1]
       cases hsb : st.sub with
       | none =>
         simp only [StateDef.map, hsb, Option.map_none]
@@ -140,21 +190,28 @@ theorem start_ref (hs : SubInv I mo) (hr : SubRef I f mo so) (m : M Sub) (hm : I
       | some sub =>
         have hI := (hm.2 m.init st sub hf hsb).1
         simp only [StateDef.map, hsb, Option.map_some]
-        simp only [hp, setSub_absL, hr.start1 sub hI, hr.start2 sub hI]
+        simp only [hp, setSub_absL, ← hcx, hr.start1 _ sub hdown hI, hr.start2 _ sub hdown hI]
         simp [absL, absRt, hm.1.2.2, hcur, MachOf.setSub, updSub_map]
 
-theorem stop_ref (hs : SubInv I mo) (hr : SubRef I f mo so) (m : M Sub) (hm : InvL I mo m) :
-    absP f (stop true mo m) = Spec.stop so (absL f m) := by
+theorem stop_ref (hs : SubInv I mo) (hr : SubRef I f mo so) (ctx : Ctx) (hctx : AllBusy ctx) (m : M Sub) (hm : InvL I mo m) :
+    absP f (stop mo ctx m) = Spec.stop so (absCtx ctx) (absL f m) := by
   unfold stop Spec.stop absP
   rw [stopReject_ok hm.1]
   by_cases hrun : m.rt.running = true
   · obtain ⟨c, hc⟩ := curr_of_running hm.1 hrun
     simp only [hrun, if_true, hc]
     have hact : (absL f m).rt.active = some c := hc
-    simp only [hact, stateOf_absL]
-    have hp : probe (.exit c 0) (m.stateOf c).exit ⟨m.rt.running, m.rt.curr, m.rt.last, m.rt.next, m.rt.cbLevel + 1⟩
-        = Spec.phase (.exit c 0) (m.stateOf c).exit (mkView (some c) m.rt.last none) := by
-      rw [probe_eq_phase' _ _ _ _ _ _ _ hrun]; simp [hm.1.2.1, hc]
+    have hmid : (absL f m).mid = m.mid := rfl
+    have hlast : (absL f m).rt.last = m.rt.last := rfl
+    simp only [hact, stateOf_absL, hmid, hlast]
+    have hp : probe (.exit c ev0) (m.stateOf c).exit m.mid ⟨true, some c, m.rt.last, m.rt.next, m.rt.cbLevel + 1⟩ ctx
+        = Spec.phase (.exit c ev0) (m.stateOf c).exit m.mid (mkView (some c) m.rt.last none) (absCtx ctx) := by
+      rw [probe_eq_phase' _ _ _ _ _ _ _ _ _ rfl hctx]; simp [hm.1.2.1]
+    have hdown : AllBusy ((m.mid, (⟨true, some c, m.rt.last, m.rt.next, m.rt.cbLevel + 1⟩ : Rt)) :: ctx) :=
+      allBusy_cons m.mid ⟨rfl, by simp⟩ hctx
+    have hcx : absCtx ((m.mid, (⟨true, some c, m.rt.last, m.rt.next, m.rt.cbLevel + 1⟩ : Rt)) :: ctx)
+        = (m.mid, mkView (some c) m.rt.last none) :: absCtx ctx := by
+      rw [absCtx_cons _ _ _ _ _ _ _ rfl]; simp [hm.1.2.1]
     cases hsb : (m.stateOf c).sub with
     | none =>
       simp only [StateDef.map, hsb, Option.map_none, hp, List.nil_append]
@@ -162,16 +219,16 @@ theorem stop_ref (hs : SubInv I mo) (hr : SubRef I f mo so) (m : M Sub) (hm : In
     | some sub =>
       have hfind := find_of_stateOf_sub m c sub hsb
       have hI := (hm.2 c _ sub hfind hsb).1
-      simp only [StateDef.map, hsb, Option.map_some, setSub_rt, hp, hr.stop1 sub hI, hr.stop2 sub hI]
+      simp only [StateDef.map, hsb, Option.map_some, setSub_rt, hp, ← hcx, hr.stop1 _ sub hdown hI, hr.stop2 _ sub hdown hI]
       simp [absL, absRt, MachOf.setSub, updSub_map]
   · have hcur := curr_of_not_running hm.1 hrun
     simp only [hrun, if_false, Bool.false_eq_true]
     have hact : (absL f m).rt.active = none := hcur
     simp only [hact]
 
-theorem handlerPhase_ref (cs : StateDef Sub) (rt : Rt) (e : EventId) (hr : rt.running = true) (hc : rt.cbLevel ≠ 0) :
-    handlerPhase cs rt e =
-      match Spec.askHandler (StateDef.map f cs) (mkView rt.curr rt.last rt.next) e with
+theorem handlerPhase_ref (cs : StateDef Sub) (self : Nat) (rt : Rt) (ctx : Ctx) (e : Event) (hb : Busy rt) (hctx : AllBusy ctx) :
+    handlerPhase cs self rt ctx e =
+      match Spec.askHandler (StateDef.map f cs) self (mkView rt.curr rt.last rt.next) (absCtx ctx) e with
       | some r => r
       | none => (-1, []) := by
   unfold handlerPhase Spec.askHandler
@@ -179,20 +236,20 @@ theorem handlerPhase_ref (cs : StateDef Sub) (rt : Rt) (e : EventId) (hr : rt.ru
   have hd : (StateDef.map f cs).dflt = cs.dflt := rfl
   have hi : (StateDef.map f cs).id = cs.id := rfl
   rw [he, hd, hi]
-  cases cs.events.find? (fun p => p.1 == e) with
-  | some p => simp [runScript_eq_body _ _ hr hc]
+  cases cs.events.find? (fun p => p.1 == e.id) with
+  | some p => simp [runScript_eq_body _ _ _ _ hb hctx]
   | none =>
     cases cs.dflt with
-    | some h => simp [runScript_eq_body _ _ hr hc]
+    | some h => simp [runScript_eq_body _ _ _ _ hb hctx]
     | none => simp
 
-theorem routeScan_ref (sid : StateId) (rt : Rt) (e : EventId) (hr : rt.running = true) (hc : rt.cbLevel ≠ 0)
+theorem routeScan_ref (sid : StateId) (self : Nat) (rt : Rt) (ctx : Ctx) (e : Event) (hb : Busy rt) (hctx : AllBusy ctx)
     (i : Nat) (rs : List Route) :
-    routeScan sid rt e i rs =
+    routeScan sid self rt ctx e i rs =
       (((Spec.indexed i rs).filter (fun p => p.2.matchesEvent e)).find? (fun p => Spec.holds p.2 e),
        ((((Spec.indexed i rs).filter (fun p => p.2.matchesEvent e)).takeWhile (fun p => !Spec.holds p.2 e)) ++
           (((Spec.indexed i rs).filter (fun p => p.2.matchesEvent e)).find? (fun p => Spec.holds p.2 e)).toList).flatMap
-            (Spec.guardEvents sid (mkView rt.curr rt.last rt.next) e)) := by
+            (Spec.guardEvents sid self (mkView rt.curr rt.last rt.next) (absCtx ctx) e)) := by
   induction rs generalizing i with
   | nil => simp [routeScan, Spec.indexed]
   | cons r rs ih =>
@@ -205,17 +262,17 @@ theorem routeScan_ref (sid : StateId) (rt : Rt) (e : EventId) (hr : rt.running =
         simp [Spec.holds, hg, Spec.guardEvents]
       | some g =>
         by_cases hv : g.eval e = true
-        · simp [Spec.holds, hg, hv, Spec.guardEvents, runScript_eq_body _ _ hr hc]
+        · simp [Spec.holds, hg, hv, Spec.guardEvents, runScript_eq_body _ _ _ _ hb hctx]
         · simp only [Bool.not_eq_true] at hv
-          simp [Spec.holds, hg, hv, Spec.guardEvents, runScript_eq_body _ _ hr hc, ih (i + 1)]
+          simp [Spec.holds, hg, hv, Spec.guardEvents, runScript_eq_body _ _ _ _ hb hctx, ih (i + 1)]
     · simp only [Bool.not_eq_true] at hm
       simp only [hm, Bool.not_false, if_true, List.filter_cons, Bool.false_eq_true, if_false]
       exact ih (i + 1)
 
-theorem transition_ref (hs : SubInv I mo) (hr : SubRef I f mo so) (m : M Sub) (hm : InvL I mo m) (c : StateId)
+theorem transition_ref (hs : SubInv I mo) (hr : SubRef I f mo so) (ctx : Ctx) (hctx : AllBusy ctx) (m : M Sub) (hm : InvL I mo m) (c : StateId)
     (hrun : m.rt.running = true) (hc : m.rt.curr = some c)
-    (e : EventId) (nextId : StateId) (ridx : Option Nat) (action : Option Script) :
-    absR f (transition mo m c e nextId ridx action) = Spec.fire so (absL f m) c e nextId ridx action := by
+    (e : Event) (nextId : StateId) (ridx : Option Nat) (action : Option Script) :
+    absR f (transition mo ctx m c e nextId ridx action) = Spec.fire so (absCtx ctx) (absL f m) c e nextId ridx action := by
   unfold transition Spec.fire absR
   rw [resolve_absL]
   cases hres : m.resolve nextId with
@@ -224,13 +281,18 @@ theorem transition_ref (hs : SubInv I mo) (hr : SubRef I f mo so) (m : M Sub) (h
     simp only [Option.map_some, stateOf_absL]
     have hlv : m.rt.cbLevel + 1 ≠ 0 := by omega
     have hcb : (absL f m).cb = m.cb := rfl
+    have hmid : (absL f m).mid = m.mid := rfl
     have hlast : (absL f m).rt.last = m.rt.last := rfl
     have hid : (StateDef.map f ts).id = ts.id := rfl
     have hen : (StateDef.map f ts).enter = ts.enter := rfl
     have hex : (StateDef.map f (m.stateOf c)).exit = (m.stateOf c).exit := rfl
-    simp only [hcb, hlast, hid, hen, hex]
-    simp only [probe_eq_phase' _ _ _ _ _ _ _ hrun]
+    simp only [hcb, hlast, hid, hen, hex, hmid]
+    simp only [probe_eq_phase' _ _ _ _ _ _ _ _ _ hrun hctx]
     simp only [hc]
+    have hdown : AllBusy ((m.mid, (⟨m.rt.running, some ts.id, some c, none, m.rt.cbLevel + 1⟩ : Rt)) :: ctx) :=
+      allBusy_cons m.mid ⟨hrun, hlv⟩ hctx
+    have hcx : absCtx ((m.mid, (⟨m.rt.running, some ts.id, some c, none, m.rt.cbLevel + 1⟩ : Rt)) :: ctx)
+        = (m.mid, mkView (some ts.id) (some c) none) :: absCtx ctx := absCtx_cons _ _ _ _ _ _ _ hrun
     cases hsb : ts.sub with
     | none =>
       simp only [StateDef.map, hsb, Option.map_none]
@@ -238,24 +300,25 @@ theorem transition_ref (hs : SubInv I mo) (hr : SubRef I f mo so) (m : M Sub) (h
     | some sub =>
       have hfind := resolve_sub m nextId ts sub hres hsb
       have hI := (hm.2 ts.id ts sub hfind hsb).1
-      have hI1 := (hs.start sub hI).1
-      simp only [StateDef.map, hsb, Option.map_some, hr.start1 sub hI, hr.start2 sub hI,
-        hr.run1 _ e hI1, hr.run2 _ e hI1]
+      have hI1 := (hs.start _ sub hdown hI).1
+      simp only [StateDef.map, hsb, Option.map_some, ← hcx, hr.start1 _ sub hdown hI, hr.start2 _ sub hdown hI,
+        hr.run1 _ _ e hdown hI1, hr.run2 _ _ e hdown hI1]
       simp [absL, absRt, MachOf.setSub, updSub_map]
 
-theorem runOwn_ref (hs : SubInv I mo) (hr : SubRef I f mo so) (m : M Sub) (hm : InvL I mo m) (c : StateId)
-    (hrun : m.rt.running = true) (hc : m.rt.curr = some c) (e : EventId) :
-    absR f (runOwn mo m c e) = Spec.handle so (absL f m) c e := by
-  have hT := fun nextId ridx action => transition_ref hs hr m hm c hrun hc e nextId ridx action
+theorem runOwn_ref (hs : SubInv I mo) (hr : SubRef I f mo so) (ctx : Ctx) (hctx : AllBusy ctx) (m : M Sub) (hm : InvL I mo m) (c : StateId)
+    (hrun : m.rt.running = true) (hc : m.rt.curr = some c) (e : Event) :
+    absR f (runOwn mo ctx m c e) = Spec.handle so (absCtx ctx) (absL f m) c e := by
+  have hT := fun nextId ridx action => transition_ref hs hr ctx hctx m hm c hrun hc e nextId ridx action
   unfold runOwn Spec.handle
   simp only [absR] at hT ⊢
   have hnext : m.rt.next = none := hm.1.2.1
   have hlast : (absL f m).rt.last = m.rt.last := rfl
+  have hmid : (absL f m).mid = m.mid := rfl
   have hroutes : (StateDef.map f (m.stateOf c)).routes = (m.stateOf c).routes := rfl
-  rw [handlerPhase_ref (f := f) (m.stateOf c) ⟨m.rt.running, m.rt.curr, m.rt.last, m.rt.next, m.rt.cbLevel + 1⟩ e hrun (by simp)]
-  rw [routeScan_ref c ⟨m.rt.running, m.rt.curr, m.rt.last, m.rt.next, m.rt.cbLevel + 1⟩ e hrun (by simp)]
-  simp only [stateOf_absL, hc, hnext, hlast, hroutes, Spec.scanEvents, Spec.chosen, Spec.candidates]
-  cases hA : Spec.askHandler (StateDef.map f (m.stateOf c)) (mkView (some c) m.rt.last none) e with
+  rw [handlerPhase_ref (f := f) (m.stateOf c) m.mid ⟨m.rt.running, m.rt.curr, m.rt.last, m.rt.next, m.rt.cbLevel + 1⟩ ctx e ⟨hrun, by simp⟩ hctx]
+  rw [routeScan_ref c m.mid ⟨m.rt.running, m.rt.curr, m.rt.last, m.rt.next, m.rt.cbLevel + 1⟩ ctx e ⟨hrun, by simp⟩ hctx]
+  simp only [stateOf_absL, hc, hnext, hlast, hmid, hroutes, Spec.scanEvents, Spec.chosen, Spec.candidates]
+  cases hA : Spec.askHandler (StateDef.map f (m.stateOf c)) m.mid (mkView (some c) m.rt.last none) (absCtx ctx) e with
   | none =>
     simp only [if_true, List.nil_append]
     cases hch : List.find? (fun p => Spec.holds p.2 e)
@@ -283,30 +346,37 @@ theorem runOwn_ref (hs : SubInv I mo) (hr : SubRef I f mo so) (m : M Sub) (hm : 
       have := hT target none none
       rw [← this]
 
-theorem run_ref (hs : SubInv I mo) (hr : SubRef I f mo so) (m : M Sub) (hm : InvL I mo m) (e : EventId) :
-    absR f (run mo m e) = Spec.run so (absL f m) e := by
+theorem run_ref (hs : SubInv I mo) (hr : SubRef I f mo so) (ctx : Ctx) (hctx : AllBusy ctx) (m : M Sub) (hm : InvL I mo m) (e : Event) :
+    absR f (run mo ctx m e) = Spec.run so (absCtx ctx) (absL f m) e := by
   unfold run Spec.run
   rw [runReject_ok hm.1]
   by_cases hrun : m.rt.running = true
   · obtain ⟨c, hc⟩ := curr_of_running hm.1 hrun
     simp only [hrun, if_true, hc]
     have hact : (absL f m).rt.active = some c := hc
-    simp only [hact, stateOf_absL]
+    have hmid : (absL f m).mid = m.mid := rfl
+    have hlast : (absL f m).rt.last = m.rt.last := rfl
+    simp only [hact, stateOf_absL, hmid, hlast]
     cases hsb : (m.stateOf c).sub with
     | none =>
       simp only [StateDef.map, hsb, Option.map_none]
-      exact runOwn_ref hs hr m hm c hrun hc e
+      exact runOwn_ref hs hr ctx hctx m hm c hrun hc e
     | some sub =>
       have hfind := find_of_stateOf_sub m c sub hsb
       have hI := (hm.2 c _ sub hfind hsb).1
-      have h1 := hs.run sub e hI
-      simp only [StateDef.map, hsb, Option.map_some, hr.run1 sub e hI, hr.run2 sub e hI, ← hr.term _ h1.1]
-      by_cases ht : mo.isTerminated (mo.run sub e).1 = true
+      have hdown : AllBusy ((m.mid, (⟨true, some c, m.rt.last, m.rt.next, m.rt.cbLevel + 1⟩ : Rt)) :: ctx) :=
+        allBusy_cons m.mid ⟨rfl, by simp⟩ hctx
+      have hcx : absCtx ((m.mid, (⟨true, some c, m.rt.last, m.rt.next, m.rt.cbLevel + 1⟩ : Rt)) :: ctx)
+          = (m.mid, mkView (some c) m.rt.last none) :: absCtx ctx := by
+        rw [absCtx_cons _ _ _ _ _ _ _ rfl]; simp [hm.1.2.1]
+      have h1 := hs.run _ sub e hdown hI
+      simp only [StateDef.map, hsb, Option.map_some, ← hcx, hr.run1 _ sub e hdown hI, hr.run2 _ sub e hdown hI, ← hr.term _ h1.1]
+      by_cases ht : mo.isTerminated (mo.run ((m.mid, (⟨true, some c, m.rt.last, m.rt.next, m.rt.cbLevel + 1⟩ : Rt)) :: ctx) sub e).1 = true
       · simp only [ht, Bool.not_true, Bool.false_eq_true, if_false, if_true]
-        have h2 := hs.stop (mo.run sub e).1 h1.1
-        have hm1 : InvL I mo (m.setSub c (mo.stop (mo.run sub e).1).1) := invL_setSub hm h2.1 (fun _ => h2.2.1)
-        have h3 := runOwn_ref hs hr _ hm1 c (by simpa using hrun) (by simpa using hc) e
-        simp only [hr.stop1 _ h1.1, hr.stop2 _ h1.1, ← setSub_absL, ← h3]
+        have h2 := hs.stop _ _ hdown h1.1
+        have hm1 := invL_setSub (c := c) hm h2.1 (fun _ => h2.2.1)
+        have h3 := runOwn_ref hs hr ctx hctx _ hm1 c (by simpa using hrun) (by simpa using hc) e
+        simp only [hr.stop1 _ _ hdown h1.1, hr.stop2 _ _ hdown h1.1, ← setSub_absL, ← h3]
         simp [absR]
       · simp only [Bool.not_eq_true] at ht
         simp only [ht, Bool.not_false, if_true, Bool.false_eq_true, if_false]
@@ -319,10 +389,10 @@ theorem run_ref (hs : SubInv I mo) (hr : SubRef I f mo so) (m : M Sub) (hm : Inv
 
 /-- the level theorem of the refinement -/
 theorem level_subRef (hs : SubInv I mo) (hr : SubRef I f mo so) :
-    SubRef (InvL I mo) (absL f) (levelOps true mo) (Spec.levelOps so) where
-  start := fun m hm => start_ref hs hr m hm
-  stop := fun m hm => stop_ref hs hr m hm
-  run := fun m e hm => run_ref hs hr m hm e
+    SubRef (InvL I mo) (absL f) (levelOps mo) (Spec.levelOps so) where
+  start := fun ctx m hctx hm => start_ref hs hr ctx hctx m hm
+  stop := fun ctx m hctx hm => stop_ref hs hr ctx hctx m hm
+  run := fun ctx m e hctx hm => run_ref hs hr ctx hctx m hm e
   term := fun m _ => rfl
   running := fun m hm => by
     show m.rt.running = (absL f m).rt.active.isSome
@@ -336,9 +406,9 @@ def abs : (n : Nat) → Mach n → Spec.SMach n
   | n + 1 => absL (abs n)
 
 theorem empty_subRef : SubRef (fun (_ : Empty) => True) (fun (x : Empty) => x) emptyOps emptyOps :=
-  ⟨fun x => x.elim, fun x => x.elim, fun x => x.elim, fun x => x.elim, fun x => x.elim⟩
+  ⟨fun _ x => x.elim, fun _ x => x.elim, fun _ x => x.elim, fun x => x.elim, fun x => x.elim⟩
 
-theorem ref_all : ∀ n, SubRef (Inv n) (abs n) (subOps true n) (Spec.subOps n)
+theorem ref_all : ∀ n, SubRef (Inv n) (abs n) (subOps n) (Spec.subOps n)
   | 0 => level_subRef empty_subInv empty_subRef
   | n + 1 => level_subRef (inv_all n) (ref_all n)
 
